@@ -2,7 +2,9 @@ from common import T_COMMON
 
 CFG = dict(
     gen=[dict(tool="facts", mode="c09.tables", out="MarchTable.lean"),
+         dict(tool="facts", mode="c09.loops", out="MarchLoops.lean"),
          dict(spec="march.json", out="MarchInterp.lean")],
+    modules=["PolyVerif.Props.C09", "PolyVerif.Props.C09Loops"],
     theorems=[
         # table level: decide +kernel over the complete regenerated tables
         "table_shapes", "table_rows_wellformed", "table_caseIndex", "table_edges_are_lattice_edges",
@@ -34,6 +36,12 @@ CFG = dict(
         "marched_tris_perm_box", "marched_volume_positive",
         # exactly the cells the real marcher visits
         "marched_perm_box", "marched_closed",
+        # round 2, Props/C09Loops.lean: the hand model of the cell / block loops IS the interpretation of the loop / fetch
+        # skeleton regenerated from canvas.go (Gen/MarchLoops.lean, go/facts mode c09.loops)
+        "cells_from_source", "index_from_source", "blockPos_from_source", "fetchCorner_from_source", "fetchCell_from_source",
+        "early_continue_from_source", "origin_from_source", "cellEmit_from_source", "cellEmitTris_from_source",
+        "marched_from_source", "marched_tris_from_source", "marched_closed_from_source", "marched_volume_positive_from_source",
+        "inside_test_from_source", "vertex_uses_from_source", "section_size_from_source", "cell_body_from_source",
     ],
     # reading aid (ignored by ./check): the closedness result is ONE result under four names, and several listed
     # theorems are intermediate lemmas of it rather than independent clauses of the property
@@ -46,10 +54,13 @@ CFG = dict(
                      "Tab.table_cell_volume_corners_tt", "Tab.table_poly_closed_ff", "Tab.table_poly_closed_ft", "Tab.table_poly_closed_tf",
                      "Tab.table_poly_closed_tt", "Tab.table_low_caps_planar", "Tab.table_cap_canonical", "Tab.table_cap_canon_empty",
                      "Tab.table_cell_volume_positive_corner", "poly_closed", "low_cap_volume_zero", "poly_volume_eq_solid", "cell_volume_nonneg",
-                     "cell_volume_pos", "volume_box_eq_cells", "weld_preserves_volume"],
+                     "cell_volume_pos", "volume_box_eq_cells", "weld_preserves_volume",
+                     "index_from_source", "blockPos_from_source", "fetchCell_from_source", "origin_from_source",
+                     "cellEmitTris_from_source", "marched_tris_from_source", "section_size_from_source"],
     streams=[dict(name="c09", n=dict(quick=8, thorough=80), timeout=dict(quick=600, thorough=3600))],
     trusted=T_COMMON + [
-        "engine F extractor /verif/go/facts/c09.go (go/parser; every unexpected AST shape is an error)",
+        "engine F extractors /verif/go/facts/c09.go, c09_loops.go (go/parser; every unexpected AST shape is an error)",
+        "the READING of Gen/MarchLoops.lean in Props/C09Loops.lean `namespace Src` (loopVals: a Go for-loop with positive step and < / <= takes the values start, start+step, ...; nested loops = nest; sequential guard assignments = foldl; range loop with break + `if !allValid { continue }` = Option mapM)",
         "driver's Float transcription of sdf.Sphere/Box/Line and of 'union = min' (used only by the near_iso oracle)",
         "driver's n log n evaluation of Closed and of Balanced (cross-checked against the quadratic specification predicate on meshes <= 150 triangles on every run)",
     ],
@@ -59,7 +70,7 @@ CFG = dict(
         "TRANSFER from lattice-edge ids to the real mesh: the Balanced half transfers unconditionally (weld_preserves_balance / march_weld_balanced: any vertex identification, dropping triangles with two equal corners); 'exactly one' is PROVED to transfer only under the hypothesis that the float vertex map is injective on the sign-changing lattice edges (march_weld_closed, weld_preserves_nodup) - i.e. when no two distinct sign-changing lattice edges produce vertices in one weld cell; the hypothesis is sufficient, not necessary, it is NOT a theorem and it is FALSE in general: a sample EQUAL to the cutoff gives interpolation parameter 0/1, so up to six lattice edges produce the same corner position. Observed: lattice-aligned single shapes, shapes touching at a point/edge/corner stay closed (strict oracle c09.holds.closed on the lattice-aligned classes, both tiers, single block and across seams); two inside regions separated only by samples equal to the cutoff (two boxes touching at a lattice face) are welded into coincident sheets: balanced, but 32 directed edges matched twice = known finding C09-touching-at-cutoff (op c09.holds.closed_touching_at_cutoff_witness, replayed every run; c09.holds.balanced is true on it). SECOND failing class found by the lattice-aligned generators = known finding C09-cutoff-noise-line: an axis-aligned capsule with whole-cell radius on a lattice line at 5 or 10 cubes per unit has a whole lattice LINE of samples at -2.2e-16 (float noise below the cutoff); the one-sample ridge is welded flat, 76 directed edges matched twice, balanced (op c09.holds.closed_cutoff_noise_line_witness; the same capsules at 1, 2, 4, 8 cubes per unit are exact and pass the strict oracle). THIRD class (seed 1 of the streams with parallel adders) = C09-weld-pinch-fine-resolution: the weld tolerance is ABSOLUTE (1e-3 world units = 0.037 cells at 37 cubes per unit); a generic capsule at 37/unit has two neighbouring vertices inside the weld cells of two lattice corners, vertices of other lattice edges are merged into them and one edge is shared by four triangles (2 directed edges twice, balanced, no degenerate face): op c09.holds.closed_weld_pinch_witness (fixed repro every run); RANDOM pipeline / accumulated canvases use c09.holds.closed_or_weld_pinch (strict closed, or balanced + no degenerate face + every over-used directed edge has an end point within the weld radius of a lattice corner (one weld-merged end point suffices; widened after a thorough run showed doubled edges whose second end point is an ordinary vertex)); the deterministic catalogue keeps the strict oracle",
         "that LookupOrAdd (1e-4) / WeldByFloat3Attribute (1e-3) give ONE id to the two float computations of one lattice edge (interp_symmetric is the exact-arithmetic statement) and do not merge distinct lattice edges when cell size >> 1e-3 and no sample is within float noise of the cutoff: observed by the oracles on the final mesh, not proved",
         "march_closed is a theorem about lattice-edge ids over a box of cells (see one_result); see the TRANSFER item for what it says about the real mesh",
-        "marched_closed covers exactly the iteration of marchFloat1 (all allocated blocks in any order, all 100^3 cells, skip when a corner block is missing, case index from the fetched values) under MarchHyp; MarchHyp's padding hypothesis is what AddField's one-cell padding provides per axis (addField_allocates_neighbourhood), not derived for an arbitrary sequence of AddField calls; block enumeration without repetition = iteration over a Go map",
+        "marched_closed covers exactly the iteration of marchFloat1 (all allocated blocks in any order, all 100^3 cells, skip when a corner block is missing, case index from the fetched values) under MarchHyp; ROUND 2: that iteration is no longer a hand transcription only - the loop bounds / comparison / step / block size, the block step at marchingSectionSize-1, the two early continues, newIndex + guards + d.index argument order and body, which block/index each cubeCorners[i] reads, the `<` of the inside test, offset + (xf,yf,zf), the tables and argument order of the three interpolateVerts calls and the statement skeleton of the cell body are REGENERATED (Gen/MarchLoops.lean) and the model is proved equal to their interpretation (cells_from_source ... cell_body_from_source; marched_closed_from_source / marched_volume_positive_from_source restate the headline results for the interpreted program). What stays hand-read: the interpreter itself (namespace Src, ~90 lines: see trusted), the initial values cubeData[i] = data / cubeDataIndexes[i] = d.index(x+dx, ..) that the fetch loop overwrites whenever the cell is not skipped (pinned by label only), `range section.positions` = each allocated block once (MarchHyp.nodup/alloc), LookupOrAdd / Append / Transform / Weld (see TRANSFER). MarchHyp's padding hypothesis is what AddField's one-cell padding provides per axis (addField_allocates_neighbourhood), not derived for an arbitrary sequence of AddField calls; block enumeration without repetition = iteration over a Go map",
         "canvasPosToChunkPos computes floor(x/100) through float64 (exact for |x| < 2^46): assumed, tied by the grid correspondence at negative coordinates",
         "vertex within one cell of the TRUE isosurface: emitted_vertex_near_isosurface assembles table_edges_cross + case index + interp_between + interp_on_segment + IVT for every vertex the MODEL emits (lattice ids, exact arithmetic), under the hypothesis that the stored samples are the values of a field continuous along the edge; that the canvas stores exactly the analytic field's samples and that the real (float, welded) output vertex is that interpolated point is the per-run oracle c09.holds.near_iso",
         "IEEE rounding of interpolateVerts; Float2/Float3 canvases, texture helpers, AddFieldParallel*/MarchParallel (C10) out of scope",
